@@ -1,4 +1,5 @@
 import JoblibProofs.Lemmas.ZlibFile
+import JoblibProofs.Lemmas.ZFileLegacy
 /-!
 # C14 — truncated or over-long files make load fail cleanly: never hang or lie
 
@@ -23,6 +24,14 @@ Quantifier reached:
   the whole file, whatever follows it, decodes to the payload and reports end-of-stream at `|raw|` — probed on
   CPython's zlib) and the unpickler contract `UnpicklerContract` are EXPLICIT HYPOTHESES: CPython's zlib and
   pickle are modelled, not verified.
+
+* `legacy_truncation_never_lies`, `legacy_trailing_bytes_ignored`, `legacy_load_class`: the LEGACY Z-file format
+  (joblib < 0.10, `numpy_pickle_compat.read_zfile`, still reached by `joblib.load(<file name>)`): every data `p`,
+  every zlib stream `z` of it, every well-formed length field, narrow and wide (python 2, joblib <= 0.8.4) header,
+  EVERY truncation length, EVERY suffix. `zlib.decompress` is a parameter with the law `ZValid` as hypothesis.
+  `read_zfile` is straight-line code: the model `readZfile` is a total function WITHOUT fuel — that it can be
+  written so is the termination statement (a variant that streams through `decompressobj` in a loop has no such
+  model).
 
 Not covered by theorems (correspondence only, `harness/props/c14.py`): bz2/lzma/xz (CPython's own file
 objects), the uncompressed path (the unpickler contract alone), `io.BufferedReader` (modelled as asking for
@@ -174,6 +183,97 @@ theorem damaged_entry_recomputes {c : Codec} {f : Bytes} {E : Option Nat} {out :
   rw [load_class law need hneed hf hr]
   split <;> rfl
 
+/-! ## The legacy Z-file format (joblib < 0.10): `numpy_pickle_compat.read_zfile` -/
+section Legacy
+open JoblibModel.ZFileLegacy
+
+/-- LEGACY TRUNCATION NEVER LIES. `b"ZF" ++ field ++ [b" "] ++ z` a valid legacy file of the data `p` (`field` the
+19-byte length field with `int(field, 16) = len(p)`, one more space in the wide header of joblib <= 0.8.4, `z` a
+zlib stream of `p`: law `ZValid` as hypothesis). For EVERY truncation length `k` — inside the magic number, inside
+the length field (whatever the cut field still parses to), between header and payload, anywhere inside the zlib
+stream — `read_zfile` RAISES: it never returns data, so `joblib.load` can return nothing but an exception.
+Termination: `readZfile` is a total function without fuel (no loop in `read_zfile`). -/
+theorem legacy_truncation_never_lies {D : Bytes → Option Bytes} {z p field : Bytes} (hz : ZValid D z p)
+    (hf : field.length = MAX_LEN) (hp : pyIntHex field = some (p.length : Int)) (wide : Bool)
+    (k : Nat) (hk : k < (legacyFile field wide z).length) :
+    ∃ e, readZfile D ((legacyFile field wide z).take k) = .error e := by
+  have hD : D [] = none := by
+    have := hz.prefix_raises 0 (List.length_pos_iff.mpr hz.nonempty)
+    simpa using this
+  have hl := header_len hf
+  by_cases hle : k ≤ HEADER_LENGTH
+  · exact readZfile_short D hD _ (by rw [List.length_take]; omega)
+  · have hlen : (legacyFile field wide z).length = HEADER_LENGTH + ((pad wide).length + z.length) := by
+      unfold legacyFile
+      rw [List.length_append, hl, List.length_append]
+    have hk' : k < HEADER_LENGTH + ((pad wide).length + z.length) := by rw [hlen] at hk; exact hk
+    have htake : (legacyFile field wide z).take k =
+        (ZFILE_PREFIX ++ field) ++ (pad wide ++ z).take (k - HEADER_LENGTH) := by
+      unfold legacyFile
+      rw [List.take_append, hl, List.take_of_length_le (by omega)]
+    rw [htake, readZfile_full_header D hf p.length hp]
+    obtain ⟨m, hm⟩ : ∃ m, k - HEADER_LENGTH = m + 1 := ⟨k - HEADER_LENGTH - 1, by omega⟩
+    cases wide with
+    | true =>
+      have hrest : (pad true ++ z).take (k - HEADER_LENGTH) = 0x20 :: z.take m := by
+        rw [hm]; simp [pad]
+      have hm' : m < z.length := by simp [pad] at hk'; omega
+      rw [hrest]
+      simp only [List.take_succ_cons, List.take_zero, if_true, List.drop_succ_cons, List.drop_zero]
+      rw [hz.prefix_raises m hm']
+      exact ⟨_, rfl⟩
+    | false =>
+      have hrest : (pad false ++ z).take (k - HEADER_LENGTH) = z.take (m + 1) := by
+        rw [hm]; simp [pad]
+      have hm' : m + 1 < z.length := by simp [pad] at hk'; omega
+      rw [hrest]
+      have hns := take_one_of_head hz.nonempty hz.not_space (m + 1) (by omega)
+      simp only [hns, if_false, List.drop_zero]
+      rw [hz.prefix_raises (m + 1) hm']
+      exact ⟨_, rfl⟩
+
+/-- LEGACY: EXTRA BYTES ARE IGNORED. A valid legacy file followed by ANY bytes `t` (`t = []`: the intact file):
+`read_zfile` returns exactly the data `p`. -/
+theorem legacy_trailing_bytes_ignored {D : Bytes → Option Bytes} {z p field : Bytes} (hz : ZValid D z p)
+    (hf : field.length = MAX_LEN) (hp : pyIntHex field = some (p.length : Int)) (wide : Bool) (t : Bytes) :
+    readZfile D (legacyFile field wide z ++ t) = .ok p := by
+  have hfile : legacyFile field wide z ++ t = (ZFILE_PREFIX ++ field) ++ (pad wide ++ (z ++ t)) := by
+    simp [legacyFile, List.append_assoc]
+  rw [hfile, readZfile_full_header D hf p.length hp]
+  cases wide with
+  | true =>
+    rw [show pad true = [0x20] from rfl]
+    simp only [if_true, List.cons_append, List.nil_append, List.take_succ_cons, List.take_zero,
+      List.drop_succ_cons, List.drop_zero]
+    rw [hz.whole t]
+    simp
+  | false =>
+    have hns : (z ++ t).take 1 ≠ [0x20] := by
+      have h := take_one_of_head hz.nonempty hz.not_space 1 (by omega)
+      cases z with
+      | nil => exact absurd rfl hz.nonempty
+      | cons a r => simpa using h
+    rw [show pad false = [] from rfl, List.nil_append]
+    simp only [hns, if_false, List.drop_zero]
+    rw [hz.whole t]
+    simp
+
+/-- LEGACY: THE CLASS `load` ENDS IN (`loadCompat` = `read_zfile` + the unpickler contract, `p` being the pickle):
+every truncation raises, every extension returns the original; never anything else, and no fuel is involved. -/
+theorem legacy_load_class {D : Bytes → Option Bytes} {z p field : Bytes} (hz : ZValid D z p)
+    (hf : field.length = MAX_LEN) (hp : pyIntHex field = some (p.length : Int)) (wide : Bool) :
+    (∀ k, k < (legacyFile field wide z).length →
+      loadCompat D p.length ((legacyFile field wide z).take k) = .raises) ∧
+    (∀ t, loadCompat D p.length (legacyFile field wide z ++ t) = .returnsOriginal) := by
+  constructor
+  · intro k hk
+    obtain ⟨e, he⟩ := legacy_truncation_never_lies hz hf hp wide k hk
+    simp [loadCompat, he]
+  · intro t
+    simp [loadCompat, legacy_trailing_bytes_ignored hz hf hp wide t]
+
+end Legacy
+
 /-! ## Unchanged code (pinned tree): finding F7 -/
 section UnchangedCode
 
@@ -273,5 +373,37 @@ example : (match read (rawSource toyCodec) 50 (-1) (openRaw (toyRaw ++ [88])) wi
 /-- A truncation: 3 of the 5 bytes deliver the strict prefix `[7]`; the toy unpickler raises on it. -/
 example : (match read (rawSource toyCodec) 50 (-1) (openRaw (toyRaw.take 3)) with
     | .ok (_, d) => toyUnpickle d | _ => some []) = none := by decide +kernel
+
+/-- Non-vacuity of the legacy theorems: a toy `zlib.decompress` (the stream `[120, b, 0]` decodes to `[b]`), the
+length field `0x1` padded to 19 bytes, both header widths; `int(·, 16)` on cut fields. -/
+def toyD : Bytes → Option Bytes
+  | 120 :: b :: 0 :: _ => some [b]
+  | _ => none
+def toyField : Bytes := [48, 120, 49] ++ List.replicate 16 32
+
+example : JoblibModel.ZFileLegacy.ZValid toyD [120, 46, 0] [46] where
+  whole := by intro t; rfl
+  prefix_raises := by
+    intro k hk
+    match k, hk with
+    | 0, _ => rfl
+    | 1, _ => rfl
+    | 2, _ => rfl
+    | k + 3, h => simp at h; omega
+  nonempty := by decide
+  not_space := by decide
+example : toyField.length = JoblibModel.ZFileLegacy.MAX_LEN := by decide
+example : JoblibModel.ZFileLegacy.pyIntHex toyField = some 1 := by decide
+example : JoblibModel.ZFileLegacy.pyIntHex [48, 120] = none := by decide              -- int(b"0x", 16)
+example : JoblibModel.ZFileLegacy.pyIntHex [48] = some 0 := by decide                 -- int(b"0", 16)
+example : (match JoblibModel.ZFileLegacy.readZfile toyD
+    (JoblibModel.ZFileLegacy.legacyFile toyField true [120, 46, 0] ++ [7, 7]) with
+    | .ok d => d | _ => []) = [46] := by decide
+example : (match JoblibModel.ZFileLegacy.readZfile toyD
+    ((JoblibModel.ZFileLegacy.legacyFile toyField false [120, 46, 0]).take 23) with
+    | .error .zlibError => true | _ => false) = true := by decide
+example : (match JoblibModel.ZFileLegacy.readZfile toyD
+    ((JoblibModel.ZFileLegacy.legacyFile toyField false [120, 46, 0]).take 4) with
+    | .error .valueError => true | _ => false) = true := by decide
 
 end C14
